@@ -91,6 +91,57 @@ def build():
     return g, s
 
 
+def build2():
+    """an ack for fragment 0 of the next packet arrives before that fragment was ever sent"""
+    rng = random.Random(15161517)
+    g = srvlib.HistGen(rng, adversarial=0.0)
+    g.domain = b't.example.com'
+    g.password = b'secret'
+    g.check_ip, g.myip, g.netbits, g.mtu, g.nsip, g.bind, g.now, g.qtype = 1, '10.0.0.1', 27, 1500, None, 0, 1000100, 10
+    g.tun_ips = [0x0a000002 + i for i in range(16)]
+    g.nusers = 16
+    g.events = []
+    g.slot_last = {}
+    s = srvlib.Session(g, (4, bytes([192, 0, 2, 10]), 4000))
+
+    def q(name, qid):
+        g.emit_dgram(s.addr, srvlib.dns_query(qid, 10, name, edns0=True), seed=12345)
+
+    def ping(seq, frag, cmc, qid):
+        q(srvlib.qname(b'p', srvlib.enc(0, bytes([s.uid, (seq << 4) | frag, cmc >> 8, cmc & 255])), g.domain), qid)
+
+    g.version(s)                                                   # 0
+    g.login(s)                                                     # 1
+    q(srvlib.qname(b'n', srvlib.enc(0, bytes([s.uid, 0, 10, 0, 1])), g.domain), 0x1001)   # 2  N=10
+    pkt = bytearray(range(100, 130))
+    pkt[20:24] = bytes([10, 0, 0, 2])
+    g.events.append('T %d %s' % (g.now, bytes(pkt).hex()))         # 3  packet: sequence number 1, nothing sent yet
+    ping(1, 0, 0x0201, 0x2001)      # 4  acknowledges 1/0 (never sent): first emission is numbered 1, offset 0
+    ping(1, 1, 0x0202, 0x2002)      # 5  number 2
+    ping(1, 2, 0x0203, 0x2003)      # 6  number 3
+    ping(1, 3, 0x0204, 0x2004)      # 7  number 4, last
+    return g, s
+
+
+def coq_events(g):
+    evs = []
+    for ev in g.events:
+        t = ev.split()
+        if t[0] == 'X':
+            now, seed, frm, dest, dg = t[1:]
+            fam, ip, port = frm.split(':')
+            rnd = srvlib.rand_after_seed(int(seed))
+            evs.append('DX %s %d {| a_fam := %d; a_ip := %s; a_port := %s |} %s %s' % (
+                now, rnd, 10 if fam == '6' else 2, coq_list(bytes.fromhex(ip)), port,
+                'None' if dest == '-' else '(Some %s)' % coq_list(bytes.fromhex(dest)),
+                coq_list(bytes.fromhex(dg)) if dg != '-' else '[]'))
+        elif t[0] == 'T':
+            evs.append('DT %s %s' % (t[1], coq_list(bytes.fromhex(t[2]))))
+        else:
+            evs.append('DS %s' % t[1])
+    return evs
+
+
 def coq_list(bs):
     return '[' + ';'.join(str(b) for b in bs) + ']'
 
@@ -164,7 +215,22 @@ def main():
     out.append('  (p_len (u_in u), p_offset (u_in u), p_seqno (u_in u), p_fragment (u_in u), p_data (u_in u),')
     out.append('   (p_len (u_out u), p_offset (u_out u), p_sentlen (u_out u), p_seqno (u_out u), p_fragment (u_out u)),')
     out.append('   (u_resent u, u_queue_filled u, u_queue_next u), (u_cache_last u, u_pingmem_last u, u_datamem_last u)).')
+    g2, s2 = build2()
+    out.append('')
+    out.append('(* second history: V, L, N=10, a 30-byte tun packet, then a ping that acknowledges fragment 0 of that packet')
+    out.append('   before it was ever sent (corpus/C15/premature-ack-first-fragment-numbered-1.cases) *)')
+    out.append('Definition ex2_events : list devent := [')
+    out.append(';\n'.join('  ' + e for e in coq_events(g2)))
+    out.append('].')
+    out.append('Definition ex2_trace : list (sstate * list out) := drun ex_cfg (init_state ex_ips) ex2_events.')
+    out.append('Definition ex2_payloads (k : nat) : list (list N) :=')
+    out.append('  flat_map (fun o => match o with OAnswer _ _ _ d _ => [d] | _ => [] end) (snd (nth k ex2_trace ([], []))).')
+    out.append('Definition ex2_user (k : nat) : suser := getu (fst (nth k ex2_trace ([], []))) 0.')
     open(os.path.join(os.path.dirname(HERE), 'coq', 'ServerExamples.v'), 'w').write('\n'.join(out) + '\n')
+    with open(os.path.join(os.path.dirname(HERE), 'corpus', 'C15', 'premature-ack-first-fragment-numbered-1.cases'), 'w') as f:
+        f.write('# an ack (seq 1, frag 0) arrives before fragment 0 of packet 1 was ever sent: the server counts it, the first\n'
+                '# fragment goes out with number 1 (offset 0, no data lost); generated by tools/gen_srv_examples.py\n')
+        f.write('H ' + g2.cfg() + ' ; ' + ' ; '.join(g2.events) + '\n')
     cp = os.path.join(os.path.dirname(HERE), 'corpus', 'C16')
     os.makedirs(cp, exist_ok=True)
     with open(os.path.join(cp, 'example.cases'), 'w') as f:
